@@ -147,7 +147,12 @@ class BufferedReader(io.RawIOBase):
         return b[:n]
 
     def readall(self):
-        self.reader.seek(self.pos)
-        rv = self.reader.read()
-        self.pos += len(rv)
-        return rv
+        # read to the end of the window (offset, size), not to the end
+        # of the underlying file
+        chunks = []
+        while True:
+            data = self.read(max(1, self.buffersize))
+            if not data:
+                break
+            chunks.append(data)
+        return b''.join(chunks)
